@@ -39,7 +39,7 @@ func FuzzC08NoCrash(f *testing.F) {
 	fuzzSeeds(f)
 	col := fuzzCollector(f, "C08")
 	f.Fuzz(func(t *testing.T, script string) {
-		if len(script) > 1<<16 {
+		if len(script) > 1<<16 || resourceHungry(script) {
 			return
 		}
 		c := &CrashCase{Prop: "C08", Kind: "fuzz", Script: script}
@@ -61,7 +61,7 @@ func FuzzC03OptDiff(f *testing.F) {
 	fuzzSeeds(f)
 	col := fuzzCollector(f, "C03")
 	f.Fuzz(func(t *testing.T, script string) {
-		if len(script) > 1<<14 || !utf8.ValidString(script) || containsAny(script, "√", "OPTIMIZE", "print", "now", "time", "getenv") {
+		if len(script) > 1<<14 || !utf8.ValidString(script) || resourceHungry(script) || containsAny(script, "√", "OPTIMIZE", "print", "now", "time", "getenv") {
 			return
 		}
 		c := &DiffCase{Prop: "C03", Kind: "diff", Script: script}
@@ -80,7 +80,7 @@ func FuzzC18Verify(f *testing.F) {
 	fuzzSeeds(f)
 	col := fuzzCollector(f, "C18")
 	f.Fuzz(func(t *testing.T, script string) {
-		if len(script) > 1<<14 || !utf8.ValidString(script) {
+		if len(script) > 1<<14 || !utf8.ValidString(script) || resourceHungry(script) {
 			return
 		}
 		acc, nt, err := verifyScript(script, true)
@@ -220,6 +220,32 @@ func TestFuzzCrasherToReplay(t *testing.T) {
 	default:
 		t.Fatalf("INFRA: unknown fuzz target %q", target)
 	}
+}
+
+// resourceHungry: the property excludes scripts whose single operations need
+// more memory than a host has. A mutated text cannot be screened by a model,
+// so every script that spells a range together with a long number, a
+// multiplication or a power is left out ("0..100100000000" killed a worker
+// by exhausting memory, which says nothing about the engine).
+func resourceHungry(script string) bool {
+	if !strings.Contains(script, "..") {
+		return false
+	}
+	if strings.ContainsAny(script, "*") {
+		return true
+	}
+	run := 0
+	for i := 0; i < len(script); i++ {
+		if script[i] >= '0' && script[i] <= '9' {
+			run++
+			if run >= 6 {
+				return true
+			}
+		} else {
+			run = 0
+		}
+	}
+	return false
 }
 
 func hexOf(s string) string {
